@@ -26,13 +26,36 @@ type prim struct {
 	b   []byte
 }
 
+// writesAll: the bytes a primitive accounts for do not depend on what the
+// buffer held before (it writes every one of them).
+func writesAll(rr dns.RR, off int, dict map[string]int) (checked bool, violation string) {
+	L := off + safeLen(rr) + 16
+	a, b := packPrimFill(rr, L, off, dict, 0xA5), packPrimFill(rr, L, off, dict, 0x5A)
+	if !a.ok || !b.ok {
+		return false, ""
+	}
+	if a.off != b.off || !bytes.Equal(a.b, b.b) {
+		return true, fmt.Sprintf("type=%s output-depends-on-previous-buffer-content", dns.TypeToString[rr.Header().Rrtype])
+	}
+	return true, ""
+}
+
 func packPrim(rr dns.RR, L, off int, dict map[string]int) (p prim) {
+	return packPrimFill(rr, L, off, dict, 0)
+}
+
+func packPrimFill(rr dns.RR, L, off int, dict map[string]int, fill byte) (p prim) {
 	defer func() {
 		if recover() != nil {
 			p = prim{}
 		}
 	}()
 	buf := make([]byte, L)
+	if fill != 0 {
+		for i := range buf {
+			buf[i] = fill
+		}
+	}
 	var d map[string]int
 	if dict != nil {
 		d = make(map[string]int, len(dict))
@@ -81,7 +104,7 @@ func monoRecord(rr dns.RR, off int, dict map[string]int) (checked bool, violatio
 }
 
 // libAssumptions checks both assumptions on one generated message.
-func libAssumptions(seed uint64, profile string) (records, monoViol, hroomViol int, detail string) {
+func libAssumptions(seed uint64, profile string) (records, monoViol, hroomViol, writeViol int, detail string) {
 	b := build(seed, profile)
 	dict := map[string]int{}
 	if len(b.m.Question) > 0 {
@@ -109,6 +132,10 @@ func libAssumptions(seed uint64, profile string) (records, monoViol, hroomViol i
 					monoViol++
 					detail = "mono " + v
 				}
+				if _, w := writesAll(rr, variant.off, variant.dict); w != "" {
+					writeViol++
+					detail = "writes-all " + w
+				}
 			}
 		}
 	}
@@ -133,20 +160,22 @@ func execLibRoom() vlib.Res {
 	if cur == nil {
 		return vlib.Res{Impl: "bad-op"}
 	}
-	recs, mv, hv, detail := libAssumptions(curSeed, curProfile)
+	recs, mv, hv, wv, detail := libAssumptions(curSeed, curProfile)
 	or := "ok"
 	switch {
 	case mv > 0:
 		or = "FAIL sig=lib/assumption-mono-does-not-hold " + detail
 	case hv > 0:
 		or = "FAIL sig=lib/assumption-hroom-does-not-hold " + detail
+	case wv > 0:
+		or = "FAIL sig=lib/assumption-writes-all-does-not-hold " + detail
 	}
 	return vlib.Res{Impl: fmt.Sprintf("records=%d", recs), Oracle: or, Tags: "nt,libroom"}
 }
 
 // libFacts: the same over a fixed sample (every profile x 40 seeds).
-func libFacts() [4]int {
-	var out [4]int
+func libFacts() [5]int {
+	var out [5]int
 	seen := map[string]bool{}
 	for _, p := range profiles {
 		if seen[p] {
@@ -154,11 +183,12 @@ func libFacts() [4]int {
 		}
 		seen[p] = true
 		for s := uint64(1); s <= 40; s++ {
-			r, mv, hv, _ := libAssumptions(s*7919, p)
+			r, mv, hv, wv, _ := libAssumptions(s*7919, p)
 			out[0] += mv
 			out[1] += hv
 			out[2] += r
 			out[3]++
+			out[4] += wv
 		}
 	}
 	return out
